@@ -194,8 +194,9 @@ def strategy(tier):
 def fixed_cases(tier):
     cat = catalogue()
     if tier == "quick":
-        k = int(os.environ.get("VERIF_SEED", "1") or "1") % 6
-        cat = cat[k::6]
+        k = int(os.environ.get("VERIF_SEED", "1") or "1")
+        # rotating 1-in-6 stride that still varies the strategy: cell i is kept when (i + i // 6 + seed) % 6 == 0
+        cat = [c for i, c in enumerate(cat) if (i + i // 6 + k) % 6 == 0]
     out = [("cell-%s-%s-%d" % c, cell(*c)) for c in cat]
     out += switch_cases(pairwise=(tier != "quick"))
     out += date_cases()
